@@ -1382,6 +1382,41 @@ spec fn grouped_prefix(hm: Map<KeyCode, Vec<Mapping>>, ms: Seq<Mapping>) -> bool
     (hm.contains_key(k) <==> group_of(ms, k).len() > 0) && (hm.contains_key(k) ==> views(hm[k]@) == group_of(ms, k))
 }
 
+// every element of a group is the view of a mapping of the layout (whose trigger ends in k)
+pub proof fn lemma_group_of_member(ms: Seq<Mapping>, k: KeyCode, i2: int)
+  requires 0 <= i2 < group_of(ms, k).len()
+  ensures exists|i: int| 0 <= i < ms.len() && mview(#[trigger] ms[i]) == group_of(ms, k)[i2] && ms[i].from@.len() >= 1 && ms[i].from@.last() == k
+  decreases ms.len()
+{
+  if ms.len() > 0 {
+    let g = group_of(ms.drop_last(), k);
+    if i2 < g.len() {
+      lemma_group_of_member(ms.drop_last(), k, i2);
+      let i = choose|i: int| 0 <= i < ms.drop_last().len() && mview(#[trigger] ms.drop_last()[i]) == g[i2] && ms.drop_last()[i].from@.len() >= 1 && ms.drop_last()[i].from@.last() == k;
+      assert(ms[i] == ms.drop_last()[i]);
+    } else {
+      assert(mview(ms[ms.len() - 1]) == group_of(ms, k)[i2]);
+    }
+  }
+}
+// every mapping of the layout is in the group of its final trigger key
+pub proof fn lemma_group_of_complete(ms: Seq<Mapping>, i: int)
+  requires 0 <= i < ms.len(), ms[i].from@.len() >= 1
+  ensures exists|i2: int| 0 <= i2 < group_of(ms, ms[i].from@.last()).len() && #[trigger] group_of(ms, ms[i].from@.last())[i2] == mview(ms[i])
+  decreases ms.len()
+{
+  let k = ms[i].from@.last();
+  let g = group_of(ms.drop_last(), k);
+  if i == ms.len() - 1 {
+    assert(group_of(ms, k)[g.len() as int] == mview(ms[i]));
+  } else {
+    lemma_group_of_complete(ms.drop_last(), i);
+    assert(ms.drop_last()[i] == ms[i]);
+    let i2 = choose|i2: int| 0 <= i2 < g.len() && #[trigger] g[i2] == mview(ms[i]);
+    assert(group_of(ms, k)[i2] == g[i2]);
+  }
+}
+
 spec fn hl_ok(h: HashedLayout) -> bool {
   forall|k: KeyCode, j: int| h.mappings@.contains_key(k) && 0 <= j < h.mappings@[k]@.len() ==> gm_ok(#[trigger] h.mappings@[k]@[j])
 }
@@ -2262,6 +2297,52 @@ impl Mapper {
     assert(held(st) =~= Set::<KeyCode>::empty()) by { assert forall|k: KeyCode| !held(st).contains(k) by { lemma_ts(st.pass_through_keys@, k); lemma_ts(st.mapped_output_keys@, k); } }
   }
   pub closed spec fn held_view(&self) -> Set<KeyCode> { held(self.state) }
+  /// the hashed layout groups exactly the mappings of l
+  pub closed spec fn grouped_from(&self, l: Layout) -> bool { grouped_prefix(self.layout.mappings@, l.mappings@) }
+  /// views of the mappings in effect, oldest first
+  pub closed spec fn active_view(&self) -> Seq<MappingV> { views(self.state.active_mappings@) }
+
+  /// C02(a) at a single state: a key held on the virtual keyboard is considered pressed, or is an output key of a mapping of the layout whose trigger keys are all considered pressed
+  pub proof fn lemma_justified(&self, l: Layout, x: KeyCode)
+    requires self.inv(), self.grouped_from(l), self.held_view().contains(x)
+    ensures self.pressed_view().contains(x)
+      || exists|i: int| 0 <= i < l.mappings@.len() && (#[trigger] l.mappings@[i]).to@.contains(x) && (forall|f: KeyCode| l.mappings@[i].from@.contains(f) ==> self.pressed_view().contains(f))
+  {
+    let st = self.state; let h = self.layout;
+    lemma_ts(st.pass_through_keys@, x); lemma_ts(st.mapped_output_keys@, x);
+    if st.pass_through_keys@.contains(x) { assert(st.input_pressed_keys@.contains(x)); }
+    else {
+      assert(st.mapped_output_keys@.contains(x));
+      assert(out_of(st.active_mappings@, x));
+      let j = choose|j: int| 0 <= j < st.active_mappings@.len() && #[trigger] st.active_mappings@[j].to@.contains(x);
+      let am = st.active_mappings@[j];
+      assert(sub(am.from@, st.input_pressed_keys@));
+      assert(in_hl(h, mview(am)));
+      let (k, i2) = choose|k: KeyCode, i2: int| h.mappings@.contains_key(k) && 0 <= i2 < h.mappings@[k]@.len() && mview(#[trigger] h.mappings@[k]@[i2]) == mview(am);
+      assert(views(h.mappings@[k]@) == group_of(l.mappings@, k));
+      assert(views(h.mappings@[k]@)[i2] == mview(h.mappings@[k]@[i2]));
+      lemma_group_of_member(l.mappings@, k, i2);
+      let i = choose|i: int| 0 <= i < l.mappings@.len() && mview(#[trigger] l.mappings@[i]) == group_of(l.mappings@, k)[i2] && l.mappings@[i].from@.len() >= 1 && l.mappings@[i].from@.last() == k;
+      assert(l.mappings@[i].to@ == am.to@ && l.mappings@[i].from@ == am.from@);
+      assert(l.mappings@[i].to@.contains(x));
+      assert forall|f: KeyCode| l.mappings@[i].from@.contains(f) implies self.pressed_view().contains(f) by { assert(am.from@.contains(f)); }
+    }
+  }
+
+  /// C02(d) at a single state: a held key that is a trigger key of a mapping in effect is an output key of a mapping in effect
+  pub proof fn lemma_consumed(&self, x: KeyCode, j: int)
+    requires self.inv(), self.held_view().contains(x), 0 <= j < self.active_view().len(), self.active_view()[j].from.contains(x)
+    ensures exists|j2: int| 0 <= j2 < self.active_view().len() && (#[trigger] self.active_view()[j2]).to.contains(x)
+  {
+    let st = self.state;
+    lemma_ts(st.pass_through_keys@, x); lemma_ts(st.mapped_output_keys@, x);
+    assert(self.active_view()[j] == mview(st.active_mappings@[j]));
+    assert(st.active_mappings@[j].from@.contains(x));
+    assert(!st.pass_through_keys@.contains(x));
+    assert(out_of(st.active_mappings@, x));
+    let j2 = choose|j2: int| 0 <= j2 < st.active_mappings@.len() && #[trigger] st.active_mappings@[j2].to@.contains(x);
+    assert(self.active_view()[j2] == mview(st.active_mappings@[j2]));
+  }
   pub closed spec fn pressed_view(&self) -> Seq<KeyCode> { self.state.input_pressed_keys@ }
   pub fn for_layout(layout: &Layout) -> (r: Mapper)
     requires
@@ -2273,6 +2354,8 @@ impl Mapper {
       //@ C01 C06 | at rest nothing is held
       r.held_view() == Set::<KeyCode>::empty(),
       r.pressed_view().len() == 0,
+      //@ C02 C03 C05 | the mapper's grouped copy of the layout corresponds to the layout it was created for
+      r.grouped_from(*layout),
     { //@ | body
     Mapper {
       layout: make_hashed_layout(layout),
@@ -2301,6 +2384,8 @@ impl Mapper {
       match input { Event::Released(_) => all_released(res.events@), _ => true },
       //@ C01 C06 | at rest nothing is held
       final(self).pressed_view().len() == 0 ==> final(self).held_view() == Set::<KeyCode>::empty(),
+      //@ C02 C03 C05 | the grouped copy of the layout is never modified
+      forall|l: Layout| #[trigger] old(self).grouped_from(l) ==> final(self).grouped_from(l),
     { //@ | body
     broadcast use Mapper::lemma_rest;
     let state = &mut self.state;
@@ -2354,6 +2439,8 @@ impl Mapper {
       final(self).held_view() == Set::<KeyCode>::empty(),
       //@ C02 C07 | release paths emit only releases
       all_released(events@),
+      //@ C02 C03 C05 | the grouped copy of the layout is never modified
+      forall|l: Layout| #[trigger] old(self).grouped_from(l) ==> final(self).grouped_from(l),
     { //@ | body
     broadcast use Mapper::lemma_rest;
     let to_release = self.state.input_pressed_keys.clone();
@@ -2364,6 +2451,7 @@ impl Mapper {
     
     for k in it: to_release
       invariant
+        forall|l: Layout| #[trigger] old(self).grouped_from(l) ==> self.grouped_from(l),
         //@ C01 C02 | inclusion invariant J (every held output key is justified by what is pressed)
         self.inv(),
         //@ C19 | bookkeeping equals the fold of the emitted events; no redundant press or release
